@@ -1,5 +1,7 @@
+import re
 from typing import TypeVar, Generic, Pattern, Callable, Iterator, Optional, Sequence
 
+from exactly_lib.common.report_rendering import text_docs
 from exactly_lib.definitions.entity import syntax_elements
 from exactly_lib.impls.description_tree import custom_details
 from exactly_lib.impls.description_tree.tree_structured import WithCachedNodeDescriptionBase
@@ -11,6 +13,7 @@ from exactly_lib.impls.types.string_transformer.impl.sources.transformed_string_
     StringTransformerFromLinesTransformer
 from exactly_lib.symbol.sdv_structure import references_from_objects_with_symbol_references, SymbolReference
 from exactly_lib.tcfs.tcds import TestCaseDs
+from exactly_lib.test_case.hard_error import HardErrorException
 from exactly_lib.test_case.app_env import ApplicationEnvironment
 from exactly_lib.type_val_deps.dep_variants.adv.app_env_dep_val import ApplicationEnvironmentDependentValue
 from exactly_lib.type_val_deps.dep_variants.ddv import ddv_validators
@@ -81,18 +84,33 @@ class _StrReplacer(_Replacer[str]):
     def process(self, line: str) -> str:
         raise NotImplementedError('abstract method')
 
+    def _substitute(self, s: str) -> str:
+        """
+        :raises HardErrorException: The replacement string is invalid
+        (e.g. refers to a group that the regular expression does not have).
+        This is not detected until the replacement is expanded for a match.
+        """
+        try:
+            return self._regex.sub(self._replacement, s)
+        except (re.error, IndexError) as ex:
+            raise HardErrorException(
+                text_docs.single_pre_formatted_line_object(
+                    'Invalid replacement string {}: {}'.format(repr(self._replacement), ex)
+                )
+            )
+
 
 class _StrReplacerIncludingNewLines(_StrReplacer):
     def process(self, line: str) -> str:
-        return self._regex.sub(self._replacement, line)
+        return self._substitute(line)
 
 
 class _StrReplacerExcludingNewLines(_StrReplacer):
     def process(self, line: str) -> str:
         if line[-1] == '\n':
-            return self._regex.sub(self._replacement, line[:-1]) + '\n'
+            return self._substitute(line[:-1]) + '\n'
         else:
-            return self._regex.sub(self._replacement, line)
+            return self._substitute(line)
 
 
 class _ReplacerWLineMatcherSelector(_Replacer[FullContentsAndLineMatcherLine]):
